@@ -265,6 +265,7 @@ typedef struct ep
     unsigned char *tx;  /* all application bytes this endpoint's application submitted */
     int txn;
     int txmsg[1024];    /* message boundaries (end offsets) */
+    unsigned char dgot[128]; /* datagram receiver: which of the peer's messages have been handed to the application */
     int txmsgn;
     int rxpos;          /* bytes of peer->tx delivered in order to this endpoint's application */
     unsigned char *etx; /* TLS 1.3 early data this endpoint's application submitted (a stream of its own: the
@@ -819,13 +820,21 @@ static void note_delivery(ep_t *e, unsigned char *pt, uint32 len)
     else if (p)
     {
         /* datagram semantics: must equal one submitted message */
-        int i, start = 0, m = -1;
+        /* (payloads can coincide: the first submitted message with this content that has not been handed over yet,
+           else the first with this content - a duplicate) */
+        int i, start = 0, m = -1, mdup = -1;
         for (i = 0; i < p->txmsgn; i++)
         {
             int end = p->txmsg[i];
-            if (end - start == (int) len && (len == 0 || memcmp(p->tx + start, pt, len) == 0)) { m = i; break; }
+            if (end - start == (int) len && (len == 0 || memcmp(p->tx + start, pt, len) == 0))
+            {
+                if (mdup < 0) mdup = i;
+                if (!(e->dgot[i >> 3] & (1 << (i & 7)))) { m = i; break; }
+            }
             start = end;
         }
+        if (m < 0) m = mdup;
+        if (m >= 0) e->dgot[m >> 3] |= (unsigned char) (1 << (m & 7));
         sb_printf(&e->dlv, "%s{\"len\":%u,\"ok\":%d,\"pos\":%d}", e->dlv.n ? "," : "", len, m >= 0, m);
     }
     else
@@ -1512,9 +1521,10 @@ static void cmd_send(char **tok, int ntok)
     ep_t *e = ep_get(tok[1]);
     int len = atoi(tok[2]), i, rc;
     unsigned char *buf = malloc(len + 1);
-    int seedb = (e->txn + e->etxn) * 131 + (e->server ? 77 : 3);
+    int seedb = (e->txn + e->etxn) * 131 + (e->server ? 77 : 3) + (e->dtls ? e->txmsgn * 7919 : 0);
     (void) ntok;
     for (i = 0; i < len; i++) buf[i] = (unsigned char) ((seedb + i * 7 + (i >> 8) * 13) & 0xff);
+    if (e->dtls && len >= 3) { buf[1] = (unsigned char) (e->txmsgn & 0xff); buf[2] = (unsigned char) ((e->txmsgn >> 8) ^ buf[0]); }   /* datagrams: message number in the payload */
     int ce0 = e->ssl && e->ssl->tls13ClientEarlyDataEnabled, se0 = e->ssl && e->ssl->tls13ServerEarlyDataEnabled;
     ep_call_begin(e);
     if (!e->ssl) { rc = -999; }
